@@ -165,6 +165,21 @@ class Walker:
                 r1, d1 = self.block(st.body + rest, dict(env), conds + [normalise(st.test)])
                 r2, d2 = self.block(st.orelse + rest, dict(env), conds + ['not ' + normalise(st.test)])
                 return rets + r1 + r2, d1 and d2
+            if isinstance(st, ast.For) and not st.orelse and len(st.body) == 1 and isinstance(st.body[0], ast.Expr) \
+                    and isinstance(st.body[0].value, ast.Call) and isinstance(st.body[0].value.func, ast.Attribute) \
+                    and st.body[0].value.func.attr == 'append' and isinstance(st.body[0].value.func.value, ast.Name) \
+                    and len(st.body[0].value.args) == 1:
+                # acc = []; for t in it: acc.append(e)   ==   acc = [e for t in it]   (when acc is still the empty list)
+                acc = st.body[0].value.func.value.id
+                prev = [s_ for s_ in stmts[:i] if isinstance(s_, ast.Assign) and any(isinstance(t_, ast.Name) and t_.id == acc for t_ in s_.targets)]
+                used = any(isinstance(x, ast.Name) and x.id == acc for x in ast.walk(st.body[0].value.args[0]))
+                if prev and isinstance(prev[-1].value, ast.List) and not prev[-1].value.elts and not used:
+                    comp = ast.ListComp(elt=st.body[0].value.args[0],
+                                        generators=[ast.comprehension(target=st.target, iter=st.iter, ifs=[], is_async=0)])
+                    ast.copy_location(comp, st)
+                    ast.fix_missing_locations(comp)
+                    env[acc] = self.ev(comp, env)
+                    continue
             raise AnalysisError('window analysis: unsupported statement %s' % type(st).__name__)
         return rets, False
 
@@ -635,6 +650,8 @@ class Walker:
             if grid.kind == REFL:
                 info.update(side='low' if isinstance(op, (ast.Lt, ast.LtE)) else 'high', grid=grid)
                 return ('mask', info)
+        if isinstance(op, (ast.Eq, ast.NotEq)) and isinstance(l, D):
+            return ('mask', {'side': 'other', 'bound': None, 'strict': True})      # picks / drops single entries: an unknown sub-vector
         raise AnalysisError('window analysis: unsupported mask %s' % normalise(e))
 
     def subscript(self, e, env):
